@@ -1,6 +1,10 @@
 package acmelib
 
-import "golang.org/x/exp/slices"
+import (
+	"cmp"
+
+	"golang.org/x/exp/slices"
+)
 
 // MessageLoad is a struct that represents the load caused by a [Message] in a [Bus].
 type MessageLoad struct {
@@ -79,8 +83,7 @@ func CalculateBusLoad(bus *Bus, defCycleTime int) (float64, []*MessageLoad, erro
 	}
 
 	slices.SortFunc(msgLoads, func(a, b *MessageLoad) int {
-		diff := b.BitsPerSec - a.BitsPerSec
-		return int(diff)
+		return cmp.Compare(b.BitsPerSec, a.BitsPerSec)
 	})
 
 	return totConsumedBitsPerSec / float64(bus.baudrate) * 100, msgLoads, nil
